@@ -333,4 +333,156 @@ theorem flatten_inj_of_width (w : Nat) (hw : 0 < w) : ∀ (l₁ l₂ : List Byte
     rw [e1, flatten_inj_of_width w hw l₁ l₂ (fun a ha => h₁ a (List.mem_cons_of_mem _ ha))
       (fun a ha => h₂ a (List.mem_cons_of_mem _ ha)) e2]
 
+/-! ### decimal length prefix and the elements of the no-cache output hash -/
+
+/-- value of a digit string -/
+def decVal (b : Bytes) : Nat := b.foldl (fun a d => a * 10 + (d.toNat - 48)) 0
+
+theorem decVal_append_single (xs : Bytes) (d : UInt8) : decVal (xs ++ [d]) = decVal xs * 10 + (d.toNat - 48) := by
+  simp [decVal, List.foldl_append]
+
+theorem decDigits_spec : ∀ fuel n, n < 10 ^ fuel →
+    decVal (decDigits fuel n) = n ∧ ∀ b ∈ decDigits fuel n, 48 ≤ b.toNat ∧ b.toNat ≤ 57
+  | 0, n, h => by
+    have : n = 0 := by simpa using h
+    subst this; simp [decDigits, decVal]
+  | fuel + 1, n, h => by
+    unfold decDigits
+    by_cases h10 : n < 10
+    · simp only [h10, if_true]
+      have e : (UInt8.ofNat (48 + n)).toNat = 48 + n := by
+        simp [UInt8.toNat_ofNat']; omega
+      constructor
+      · show (0 * 10 + ((UInt8.ofNat (48 + n)).toNat - 48)) = n
+        rw [e]; omega
+      · intro b hb; rw [List.mem_singleton.mp hb, e]; omega
+    · simp only [h10, if_false]
+      have hlt : n / 10 < 10 ^ fuel := by
+        rw [Nat.pow_succ] at h; omega
+      obtain ⟨iv, id⟩ := decDigits_spec fuel (n / 10) hlt
+      have e : (UInt8.ofNat (48 + n % 10)).toNat = 48 + n % 10 := by
+        simp [UInt8.toNat_ofNat']; omega
+      constructor
+      · rw [decVal_append_single, iv, e]; omega
+      · intro b hb
+        rcases List.mem_append.mp hb with hb | hb
+        · exact id b hb
+        · rw [List.mem_singleton.mp hb, e]; omega
+
+theorem dec_spec (n : Nat) : decVal (dec n) = n ∧ ∀ b ∈ dec n, 48 ≤ b.toNat ∧ b.toNat ≤ 57 :=
+  decDigits_spec (n + 1) n (Nat.lt_of_lt_of_le (Nat.lt_pow_self (by decide : 1 < 10)) (Nat.pow_le_pow_right (by decide) (Nat.le_succ n)))
+
+theorem dec_inj {a b : Nat} (h : dec a = dec b) : a = b := by
+  rw [← (dec_spec a).1, ← (dec_spec b).1, h]
+
+theorem colon_not_mem_dec (n : Nat) : cColon ∉ dec n := fun h => by
+  have := (dec_spec n).2 _ h; simp [cColon] at this
+
+/-- an element followed by nothing or by a comma parses uniquely: the decimal prefix ends at the first colon, the
+    definition has the announced length, the digest (hex: no comma) ends at the first comma -/
+theorem nocacheElem_append_inj {d d' g g' r r' : Bytes} (hg : cComma ∉ g) (hg' : cComma ∉ g')
+    (hr : r = [] ∨ ∃ t, r = cComma :: t) (hr' : r' = [] ∨ ∃ t, r' = cComma :: t)
+    (h : nocacheElem d g ++ r = nocacheElem d' g' ++ r') : d = d' ∧ g = g' ∧ r = r' := by
+  unfold nocacheElem at h
+  simp only [List.append_assoc, List.cons_append] at h
+  obtain ⟨h1, h2⟩ := append_sep_inj (colon_not_mem_dec _) (colon_not_mem_dec _) h
+  have hl := dec_inj h1
+  obtain ⟨h3, h4⟩ := List.append_inj h2 hl
+  simp only [List.cons.injEq, true_and] at h4
+  refine ⟨h3, ?_⟩
+  rcases hr with rfl | ⟨t, rfl⟩ <;> rcases hr' with rfl | ⟨t', rfl⟩
+  · simp at h4; exact ⟨h4, rfl⟩
+  · simp only [List.append_nil] at h4
+    exact absurd (h4 ▸ List.mem_append_right _ List.mem_cons_self) hg
+  · simp only [List.append_nil] at h4
+    exact absurd (h4.symm ▸ List.mem_append_right _ List.mem_cons_self) hg'
+  · obtain ⟨e1, e2⟩ := append_sep_inj hg hg' h4
+    exact ⟨e1, by rw [e2]⟩
+
+theorem nocacheElem_ne_nil (d g : Bytes) : nocacheElem d g ≠ [] := by
+  unfold nocacheElem
+  intro h
+  have := congrArg List.length h
+  simp at this
+
+/-- the comma-joined list of elements determines the list of (definition, digest) pairs -/
+theorem joinComma_elems_inj : ∀ (xs ys : List (Bytes × Bytes)),
+    (∀ o ∈ xs, cComma ∉ o.2) → (∀ o ∈ ys, cComma ∉ o.2) →
+    joinComma (xs.map (fun o => nocacheElem o.1 o.2)) = joinComma (ys.map (fun o => nocacheElem o.1 o.2)) → xs = ys
+  | [], [], _, _, _ => rfl
+  | [], y :: ys, _, _, h => by
+    exfalso
+    cases ys with
+    | nil => simp [joinComma] at h; exact nocacheElem_ne_nil _ _ h
+    | cons z zs =>
+      simp only [List.map_nil, List.map_cons, joinComma] at h
+      have := congrArg List.length h; simp [nocacheElem] at this
+  | x :: xs, [], _, _, h => by
+    exfalso
+    cases xs with
+    | nil => simp [joinComma] at h; exact nocacheElem_ne_nil _ _ h
+    | cons z zs =>
+      simp only [List.map_nil, List.map_cons, joinComma] at h
+      have := congrArg List.length h; simp [nocacheElem] at this
+  | x :: xs, y :: ys, hx, hy, h => by
+    have hxg := hx x List.mem_cons_self
+    have hyg := hy y List.mem_cons_self
+    have hxs : ∀ o ∈ xs, cComma ∉ o.2 := fun o ho => hx o (List.mem_cons_of_mem _ ho)
+    have hys : ∀ o ∈ ys, cComma ∉ o.2 := fun o ho => hy o (List.mem_cons_of_mem _ ho)
+    -- normal form: element ++ rest, where rest is empty or starts with a comma
+    have form : ∀ (o : Bytes × Bytes) (l : List (Bytes × Bytes)),
+        ∃ r, joinComma ((o :: l).map (fun o => nocacheElem o.1 o.2)) = nocacheElem o.1 o.2 ++ r ∧
+          ((l = [] ∧ r = []) ∨ (l ≠ [] ∧ r = cComma :: joinComma (l.map (fun o => nocacheElem o.1 o.2)))) := by
+      intro o l
+      cases l with
+      | nil => exact ⟨[], by simp [joinComma], Or.inl ⟨rfl, rfl⟩⟩
+      | cons z zs => exact ⟨_, by simp [joinComma], Or.inr ⟨by simp, rfl⟩⟩
+    obtain ⟨r, er, cr⟩ := form x xs
+    obtain ⟨r', er', cr'⟩ := form y ys
+    rw [er, er'] at h
+    have hr : r = [] ∨ ∃ t, r = cComma :: t := by
+      rcases cr with ⟨_, e⟩ | ⟨_, e⟩
+      · exact Or.inl e
+      · exact Or.inr ⟨_, e⟩
+    have hr' : r' = [] ∨ ∃ t, r' = cComma :: t := by
+      rcases cr' with ⟨_, e⟩ | ⟨_, e⟩
+      · exact Or.inl e
+      · exact Or.inr ⟨_, e⟩
+    obtain ⟨e1, e2, e3⟩ := nocacheElem_append_inj hxg hyg hr hr' h
+    have exy : x = y := Prod.ext e1 e2
+    subst exy
+    rcases cr with ⟨lx, rx⟩ | ⟨lx, rx⟩ <;> rcases cr' with ⟨ly, ry⟩ | ⟨ly, ry⟩
+    · rw [lx, ly]
+    · rw [rx, ry] at e3; simp at e3
+    · rw [rx, ry] at e3; simp at e3
+    · rw [rx, ry] at e3
+      simp only [List.cons.injEq, true_and] at e3
+      rw [joinComma_elems_inj xs ys hxs hys e3]
+
+theorem nocacheElem_inj {d d' g g' : Bytes} (hg : cComma ∉ g) (hg' : cComma ∉ g')
+    (h : nocacheElem d g = nocacheElem d' g') : d = d' ∧ g = g' := by
+  have := nocacheElem_append_inj (r := []) (r' := []) hg hg' (Or.inl rfl) (Or.inl rfl) (by simpa using h)
+  exact ⟨this.1, this.2.1⟩
+
+/-- a permutation of the images under a function that is injective on the two lists is a permutation of the lists -/
+theorem perm_of_map_perm {α β : Type} [DecidableEq α] [DecidableEq β] (f : α → β) :
+    ∀ (xs ys : List α), (∀ a ∈ xs, ∀ b ∈ ys, f a = f b → a = b) → (∀ a ∈ xs, ∀ b ∈ xs, f a = f b → a = b) →
+      (xs.map f).Perm (ys.map f) → xs.Perm ys
+  | [], ys, _, _, h => by
+    have := h.length_eq; simp at this
+    rw [List.length_eq_zero_iff.mp this.symm]
+  | a :: xs, ys, hxy, hxx, h => by
+    have hmem : f a ∈ ys.map f := h.subset (by simp)
+    obtain ⟨b, hb, hfb⟩ := List.mem_map.mp hmem
+    have hab : a = b := hxy a List.mem_cons_self b hb hfb.symm
+    subst hab
+    have hp : ys.Perm (a :: ys.erase a) := List.perm_cons_erase hb
+    have h2 : (List.map f xs).Perm ((ys.erase a).map f) := by
+      have := h.trans (hp.map f)
+      simpa using this
+    have ih := perm_of_map_perm f xs (ys.erase a)
+      (fun x hx y hy e => hxy x (List.mem_cons_of_mem _ hx) y (List.mem_of_mem_erase hy) e)
+      (fun x hx y hy e => hxx x (List.mem_cons_of_mem _ hx) y (List.mem_cons_of_mem _ hy) e) h2
+    exact (List.Perm.cons a ih).trans hp.symm
+
 end Grog
